@@ -40,8 +40,13 @@ def mutants_table():
 
 def seeded_table():
     rows = ['| property | change (file) | trigger | caught by | notes |', '|----------|---------------|---------|-----------|-------|']
-    for meta in sorted((ROOT / 'seeded').glob('*/meta.json')):
-        m = json.loads(meta.read_text())
+    for d in sorted((ROOT / 'seeded').glob('C*')):
+        m = {'property': d.name}
+        for name in ('desc.json', 'meta.json'):
+            if (d / name).exists():
+                m.update(json.loads((d / name).read_text()))
+        demo = f"demo rc {m.get('demo_on_original', '?')} / {m.get('demo_on_patched', '?')} (original / patched)"
+        m['notes'] = (m.get('notes', '') + ' ' + demo).strip()
         rows.append(f"| {m['property']} | {m.get('file', '')} | {m.get('trigger', '')[:160]} | {m.get('caught_by', '')} | {m.get('notes', '')[:220]} |")
     return '\n'.join(rows)
 
